@@ -15,7 +15,10 @@ OPAQUE = ['github.com/moorara/algo/grammar.NewCFG', 'github.com/moorara/algo/par
 def gen_params(sc, **kw):
     src = ['//go:build verif', '', 'package parser', '']
     for k, v in kw.items():
-        src.append('const %s = %s' % (k, v))
+        if isinstance(v, list):
+            src.append('var %s = []int{%s}' % (k, ', '.join(str(x) for x in v)))
+        else:
+            src.append('const %s = %s' % (k, v))
     path = sc.path('zz_verif_lr_params.go')
     with open(path, 'w') as f:
         f.write('\n'.join(src) + '\n')
@@ -24,7 +27,7 @@ def gen_params(sc, **kw):
 
 def files(sc, extra=(), **params):
     fs = [os.path.join(HDIR, f) for f in sorted(os.listdir(HDIR)) if f.startswith('zz_verif_') and f.endswith('.go') and not f.endswith('_test.go')]
-    defaults = dict(lrK=6, lrEvalK=6, lrFailK=5, lrTreeK=6, lrBodyK=5)
+    defaults = dict(lrK=6, lrEvalK=6, lrFailK=5, lrTreeK=6, lrBodyK=5, lrLongNs=[40])
     defaults.update(params)
     fs.append(gen_params(sc, **defaults))
     fs.extend(extra)
